@@ -2080,7 +2080,7 @@ class Memoer(Tymee):
            echoic (bool): True means echo sends into receives via. echos
                            False measn do not echo
         """
-        if self.opened and self.txgs:
+        if self.opened and (self.txgs or self.txbs[1] is not None):  # pending gram or remainder
             self._serviceOnceTxGrams(echoic=echoic)
 
 
@@ -2093,7 +2093,7 @@ class Memoer(Tymee):
            echoic (bool): True means echo sends into receives via. echos
                            False measn do not echo
         """
-        while self.opened and self.txgs:  # pending gram(s)
+        while self.opened and (self.txgs or self.txbs[1] is not None):  # pending gram(s) or remainder
             if not self._serviceOnceTxGrams(echoic=echoic):  # send incomplete
                 break  # try again later
 
